@@ -282,15 +282,17 @@ fn worker(args: &[String]) -> i32 {
         *stats.entry("choices").or_insert(0) += o.choices;
         *stats.entry("switches").or_insert(0) += o.switches;
         *stats.entry("preemptions").or_insert(0) += o.preemptions;
-        *stats.entry("sim_clock_ns").or_insert(0) += o.clock_ns.min(u64::MAX / 1_000_000);
+        *stats.entry("sim_clock_us").or_insert(0) += o.clock_ns.min(u64::MAX / 1_000_000) / 1000;
         *stats.entry("blocks").or_insert(0) += o.blocks;
         *stats.entry("timeouts").or_insert(0) += o.timeouts;
         *stats.entry("threads").or_insert(0) += o.threads as u64;
         for (k, v) in &rep.faults {
-            *faults.entry(k.clone()).or_insert(0) += v;
+            let d = faults.entry(k.clone()).or_insert(0);
+            *d = d.saturating_add(*v);
         }
         for (k, v) in &rep.probes {
-            *probes.entry(k.clone()).or_insert(0) += v;
+            let d = probes.entry(k.clone()).or_insert(0);
+            *d = d.saturating_add(*v);
         }
         if rep.inconclusive {
             *stats.entry("inconclusive_runs").or_insert(0) += 1;
@@ -590,7 +592,8 @@ fn merge(m: &mut Merged, r: &Value) {
     for (name, dst) in [("stats", &mut m.stats), ("faults", &mut m.faults), ("probes", &mut m.probes), ("scenario_runs", &mut m.scen_runs)] {
         if let Some(o) = r.get(name).and_then(|x| x.as_object()) {
             for (k, v) in o {
-                *dst.entry(k.clone()).or_insert(0) += v.as_u64().unwrap_or(0);
+                let d = dst.entry(k.clone()).or_insert(0);
+                *d = d.saturating_add(v.as_u64().unwrap_or(0));
             }
         }
     }
@@ -801,7 +804,7 @@ fn check(args: &[String]) -> i32 {
             unreached.push(p.clone());
         }
     }
-    let sim_s = m.stats.get("sim_clock_ns").copied().unwrap_or(0) as f64 / 1e9;
+    let sim_s = m.stats.get("sim_clock_us").copied().unwrap_or(0) as f64 / 1e6;
     let evidence = json!({
         "property_id": prop,
         "tier": tier.name(),
